@@ -4,6 +4,8 @@ from vlib import xhex
 from props.codec_common import *
 
 THEOREMS = ["C03_accepts_conformant"]
+REPEAT = 2            # case lines repeated 66 000 times on one thread (state that builds up over many calls)
+REPEAT_CMDS = ('DECRT',)
 RELEASE = True          # debug and release builds of the harness (debug_assert!, overflow checks, cfg(debug_assertions))
 RULE = ("DECRT x<bytes>: bytes from the Python RFC 9171 reference encoder for bundles of the C01 domain (CRCs computed by the "
         "peer); the implementation decodes, CRC-checks and re-encodes; non-trivial = distinct input with an extension block or a CRC")
